@@ -17,6 +17,7 @@ import (
 	"reflect"
 	"strconv"
 
+	"github.com/EliCDavis/polyform/math/sample"
 	"github.com/EliCDavis/polyform/modeling"
 	"github.com/EliCDavis/polyform/modeling/marching"
 	"github.com/EliCDavis/vector/vector3"
@@ -362,6 +363,27 @@ func runScaled(c *core.Ctx, B int) {
 	for _, s := range sh {
 		sn = append(sn, s.name)
 	}
+	// a second scalar attribute on the canvas: the position surface must not notice it
+	extras := []string{"same-field", "other-field-before", "other-field-after"}
+	c.Bound(bname(B, "second_attribute"), extras)
+	for _, s := range sh {
+		for _, cpu := range []float64{1, 2} {
+			for _, o := range [][3]float64{{2.5, 2.5, 2.5}, {5.5, 2.5, 2.5}, {5.5, 5.5, 5.5}, {-0.5, 2.5, 5.5}} {
+				for _, ex := range extras {
+					for _, cut := range cutoffs {
+						if !c.Next() {
+							continue
+						}
+						if expired(c) {
+							return
+						}
+						ctr := [3]float64{o[0] / cpu, o[1] / cpu, o[2] / cpu}
+						one(c, Case{Via: s.via, Parts: s.at(ctr), Strength: s.strength, Margin: s.margin, CPU: cpu, Cutoff: cut, Entry: "canvas", Block: B, Extra: ex}, fmt.Sprintf("block%d/second-attribute/%s", B, s.via))
+					}
+				}
+			}
+		}
+	}
 	c.Bound(bname(B, "shapes"), sn)
 	c.Bound(bname(B, "centre_offsets_lattice_units_per_axis"), offs)
 	c.Bound(bname(B, "cubes_per_unit"), cpus)
@@ -412,7 +434,25 @@ func march(cs Case, f marching.Field) modeling.Mesh {
 		return f.March(modeling.PositionAttribute, cs.CPU, cs.Cutoff)
 	}
 	cv := marching.NewMarchingCanvas(cs.CPU)
-	cv.AddField(f)
+	heat := func(v vector3.Float64) float64 { return 0.37 + 0.11*v.X() - 0.05*v.Y()*v.Z() }
+	other := marching.Field{Domain: f.Domain, Float1Functions: map[string]sample.Vec3ToFloat{"Heat": heat}}
+	switch cs.Extra {
+	case "same-field":
+		g := marching.Field{Domain: f.Domain, Float1Functions: map[string]sample.Vec3ToFloat{"Heat": heat}}
+		for k, v := range f.Float1Functions {
+			g.Float1Functions[k] = v
+		}
+		g.Float2Functions, g.Float3Functions = f.Float2Functions, f.Float3Functions
+		cv.AddField(g)
+	case "other-field-before":
+		cv.AddField(other)
+		cv.AddField(f)
+	case "other-field-after":
+		cv.AddField(f)
+		cv.AddField(other)
+	default:
+		cv.AddField(f)
+	}
 	return cv.March(cs.Cutoff)
 }
 
